@@ -10,9 +10,9 @@ RULE = ('every function of 3 variables embedded in a manager with 1-2 extra unus
         'name; count(u, n) for n = |support| .. |support|+3 equals the model count, default count == models over the '
         'support, ValueError for n < |support|; pick_iter(u, care) for every subset and superset care set: each '
         'assignment satisfies u however completed, mentions every care variable, no two overlap, union == models; '
-        'pick is one of them, None iff false. non-trivial: non-constant function; distinct = (truth table, order, extra).')
+        'pick is one of them, None iff false; collections between the functions of one manager (node numbers re-used). non-trivial: non-constant function; distinct = (truth table, order, extra).')
 EXHAUSTIVE = {'quick': False, 'thorough': True}
-REQUIRED_COUNTERS = ['support-checked', 'count-checked', 'pick-checked']
+REQUIRED_COUNTERS = ['support-checked', 'count-checked', 'pick-checked', 'queries-after-collection']
 CORE = ['x', 'y', 'z']
 
 
@@ -168,6 +168,11 @@ def case_sampled(c, res):
         b.incref(u)
         check_function(m if i % 2 else b, b, names, u, t, res, auto=bool(i % 2))
         b.decref(u)
+        if i % 3 != 0:
+            # collections in between: node numbers are re-used by the next functions, so anything a query remembered about a
+            # number that has been freed would be reported for a different function
+            b.collect_garbage()
+            res.count('queries-after-collection')
         keys.append((t, tuple(o)))
     res.evals += c['count'] - 1
     return keys
@@ -200,6 +205,8 @@ def case_many_variables(c, res):
         tl = t | (t << (1 << n))
         check_function(m if i % 2 else b, b, uni, u, tl, res, auto=bool(i % 2))
         b.decref(u)
+        if i % 3 != 0:
+            b.collect_garbage()
         keys.append((tuple(lv), t))
     res.evals += c['count'] - 1
     return keys
